@@ -564,7 +564,7 @@ pub fn c01() -> Simple {
         thorough: 4_000_000,
         budget_q: 60,
         budget_t: 700,
-        owns: &["callback-args", "callback-missing", "callback-extra", "end", "panic", "stall"],
+        owns: &["callback-args", "callback-missing", "callback-extra", "end", "panic", "stall", "param-value", "param-count"],
         gen: gen_c01,
         extra: None,
         assumptions: COMMON_ASSUME,
